@@ -26,7 +26,7 @@ def lengths(rng: random.Random, k: int, maxlen: int = 4096) -> list[int]:
     return out[:k]
 
 
-UNI_SAMPLES = ["", "a", "hello", "käse", "€uro", "日本語", "\U0001F600", "a\u0000b", "߿ࠀ￿\U00010000\U0010ffff"]
+UNI_SAMPLES = ["", "a", "hello", "ab\u0000", "\u0000", "\u0000\u0000x\u0000\u0000", " x \t\n ", "\ufeffbom", "käse", "€uro", "日本語", "\U0001F600", "a\u0000b", "߿ࠀ￿\U00010000\U0010ffff"]
 
 
 def valid_values(ty: int, rng: random.Random, k: int, depth: int = 0, avp_pool=None) -> list[str]:
@@ -79,7 +79,7 @@ def valid_values(ty: int, rng: random.Random, k: int, depth: int = 0, avp_pool=N
             out.append("s:" + s.encode("utf8").hex())
     elif ty == T_TIME:
         out = [f"t:{x}" for x in (TIME_MIN, TIME_MIN + 1, -1, 0, 1, 1700000000, ERA1 - 3601, ERA1 - 3600,
-                                  ERA1 - 1, ERA1, ERA1 + 1, 2**31 - 1, 2**31, 2**32, TIME_MAX - 1, TIME_MAX)]
+                                  ERA1 - 1, ERA1, ERA1 + 1, 2**31 - 1, 2**31, 2**32 - 2**27, TIME_MAX - 1, TIME_MAX)]
         while len(out) < k:
             out.append(f"t:{rng.randrange(TIME_MIN, TIME_MAX + 1)}")
     elif ty == T_ADDR:
